@@ -403,6 +403,12 @@ def main(tier: str, only=None) -> int:
         "verdicts": counts, "queries": solver, "bindings_where_both_models_fail": both_fail, "optimize_exceptions": n_exc,
         "binding_values": VALUES, "models_with_changed_declared_inputs": n_sig,
     })
+    if not only or only.startswith("c09.lemma") or only == "lemma":
+        from vp import xh
+        xh.run_side_obligations(run, ["vp.harness.c09_lemmas"], tier, only if only and only != "lemma" else None, "predicate_lemmas",
+                                "CrossHair (z3) on the current source of the shape predicates and partial evaluators that justify the simplifications "
+                                "(_same_shape, _ir_utils.same_shape / same_dim, the Expand and Reshape evaluators, _merge_shapes): dim kinds by a bounded "
+                                "symbolic index, static dims and runtime values of symbols / anonymous dims unbounded symbolic integers -- every binding, not five")
     run.assumptions += ["one optimize() per declared model, many bindings per optimized model", "symbols bound to {0,1,2,3,7}; <=4 symbols per model",
                         "floats as reals; a binding on which exactly one model fails counts as a counterexample"]
     return run.finish()
